@@ -134,6 +134,21 @@ def eval_op(op: str) -> str:
             key = BTC.keys.public(parse_pt(a[2]))
             return "ok %d" % (1 if key.verify(int(a[3]).to_bytes(32, "big"), sigencode_der(int(a[4]), int(a[5]))) else 0)
         g = _generator(a[1])
+        if k == "ec_consts":
+            return "ok %d %d %d %d %d %d" % (g._p, g._a, g._b, g[0], g[1], g._order)
+        # ---- ops whose MODEL is the glue model of native/openssl.py (Lean: Ossl.* / Gen.* over Ossl.methods, libcrypto
+        # played by the pure model); the implementation side is the real class of the configuration named in the token
+        if k == "ec_ossl_mul":
+            # the class's `multiply` handed a raw tuple: no `Point` constructor in front of the glue
+            return "ok " + show_pt(g.multiply(parse_pt(a[2]), int(a[3])))
+        if k == "ec_ossl_rawmul":
+            return "ok " + show_pt(g.raw_mul(int(a[2])))
+        if k == "ec_ossl_inv":
+            return "ok %d" % g.inverse_mod(int(a[2]), int(a[3]))
+        if k == "ossl_probe":
+            return _ossl_probe(g, a)
+        if k in ("ec_ossl_add", "ec_ossl_blindmul", "ec_ossl_shared", "ossl_sign", "ossl_verify", "ossl_recover"):
+            k = k.replace("ec_ossl_", "ec_").replace("ossl_", "")
         if k == "ec_add":
             return "ok " + show_pt(_point(g, a[2]) + _point(g, a[3]))
         if k == "ec_sub":
@@ -237,6 +252,58 @@ def eval_op(op: str) -> str:
     return "bad-op"
 
 
+def _ossl_probe(g, a) -> str:
+    """the libcrypto calls of the glue made directly (ctypes, pycoin's own handle and BignumType), return codes included:
+    what the CONTRACT of the Lean theorems (LibCryptoOk) says about them is what the model side answers"""
+    import ctypes
+    from pycoin.ecdsa.native.openssl import OpenSSL
+    if not OpenSSL or not hasattr(g, "openssl_group"):
+        return "err NoOpenSSL"
+    BN = OpenSSL.BignumType
+    grp = g.openssl_group
+    what = a[2]
+    if what == "bn":
+        b = BN(int(a[3]))
+        return "ok %d %d %d" % (b.to_int(), 1 if b.neg else 0, b.top)
+    ctx = OpenSSL.BN_CTX_new()
+    try:
+        if what == "mul":
+            x, y = parse_pt(a[3])
+            bx, by, bn = BN(x), BN(y), BN(int(a[4]))
+            res = OpenSSL.EC_POINT_new(grp)
+            pt = OpenSSL.EC_POINT_new(grp)
+            r1 = OpenSSL.EC_POINT_set_affine_coordinates_GFp(grp, pt, bx, by, ctx)
+            r2 = OpenSSL.EC_POINT_mul(grp, res, None, pt, bn, ctx)
+            r3 = OpenSSL.EC_POINT_get_affine_coordinates_GFp(grp, res, bx, by, ctx)
+            OpenSSL.EC_POINT_free(pt)
+            OpenSSL.EC_POINT_free(res)
+            return "ok %d %d %d %d,%d" % (1 if r1 else 0, 1 if r2 else 0, 1 if r3 else 0, bx.to_int(), by.to_int())
+        if what == "inv":
+            a1 = BN(int(a[3]))
+            r = OpenSSL.BN_mod_inverse(a1, a1, BN(int(a[4])), ctx)
+            return "ok %s %d" % ("ptr" if r else "null", a1.to_int())
+        if what == "group":
+            vp = ctypes.c_void_p
+            f = getattr(OpenSSL, "EC_GROUP_get_curve_GFp", None) or OpenSSL.EC_GROUP_get_curve
+            f.argtypes = [vp, vp, vp, vp, vp]
+            f.restype = ctypes.c_int
+            OpenSSL.EC_GROUP_get_order.argtypes = [vp, vp, vp]
+            OpenSSL.EC_GROUP_get_order.restype = ctypes.c_int
+            OpenSSL.EC_GROUP_get0_generator.argtypes = [vp]
+            OpenSSL.EC_GROUP_get0_generator.restype = vp
+            p, ca, cb, n, gx, gy = BN(), BN(), BN(), BN(), BN(), BN()
+            ok1 = f(grp, ctypes.byref(p), ctypes.byref(ca), ctypes.byref(cb), ctx)
+            ok2 = OpenSSL.EC_GROUP_get_order(grp, ctypes.byref(n), ctx)
+            gen = OpenSSL.EC_GROUP_get0_generator(grp)
+            ok3 = OpenSSL.EC_POINT_get_affine_coordinates_GFp(grp, gen, gx, gy, ctx)
+            if not (ok1 and ok2 and ok3):
+                return "err GroupQueryFailed"
+            return "ok %d %d %d %d %d %d" % tuple(v.to_int() for v in (p, ca, cb, gx, gy, n))
+    finally:
+        OpenSSL.BN_CTX_free(ctx)
+    return "bad-op"
+
+
 # ------------------------------------------------------------------ worker client (harness side)
 
 _WORKERS: dict = {}
@@ -254,6 +321,8 @@ def _spawn(cfg: str):
     w = _Worker(p)
     hello = w.request("hello", 60.0)
     want = "worker openssl=%d" % (1 if cfg == "openssl" else 0)
+    if hello.startswith("worker import-failed"):
+        return w
     if not hello.startswith(want):
         from lib import Infra
         raise Infra("worker for configuration %s reports %r" % (cfg, hello))
@@ -310,6 +379,19 @@ class _Worker:
             if not chunk:
                 return "err WorkerDied"
             self.buf += chunk
+
+
+HELLO: dict = {}
+
+
+def worker_hello(cfg: str) -> str:
+    """what the worker of a configuration reports about the libraries pycoin found (`worker openssl=1 libsecp256k1=0`)"""
+    if cfg not in HELLO:
+        w = _WORKERS.get(cfg)
+        if w is None or not w.alive():
+            w = _WORKERS[cfg] = _spawn(cfg)
+        HELLO[cfg] = w.request("hello", 60.0)
+    return HELLO[cfg]
 
 
 def call(op: str) -> str:
@@ -449,8 +531,13 @@ def consts(tok: str):
     if name.startswith("toy:"):
         return toy_params(name)
     if name not in CURVE_CONSTS:
-        g = _generator(name)
-        CURVE_CONSTS[name] = (g._p, g._a, g._b, g[0], g[1], g._order)
+        # asked of the pure worker: importing the generator modules in this process would run the constructors of the
+        # default (OpenSSL) classes, and a broken native glue would then crash the harness instead of failing the check
+        ans = call("ec_consts %s/pure" % name)
+        if not ans.startswith("ok "):
+            from lib import Infra
+            raise Infra("curve constants of %s unavailable: %s" % (name, ans))
+        CURVE_CONSTS[name] = tuple(int(v) for v in ans[3:].split(" "))
     return CURVE_CONSTS[name]
 
 
@@ -512,17 +599,25 @@ def _main():
     out = os.fdopen(os.dup(1), "w")
     os.dup2(2, 1)
     sys.stdout = sys.stderr
-    from pycoin.ecdsa.secp256k1 import secp256k1_generator
-    from pycoin.ecdsa.native.secp256k1 import libsecp256k1
-    has_ossl = any("openssl" in c.__module__ and c.__name__ == "Optimizations" for c in type(secp256k1_generator).__mro__)
-    hello = "worker openssl=%d libsecp256k1=%d" % (1 if has_ossl else 0, 1 if libsecp256k1 else 0)
+    import_err = None
+    try:
+        from pycoin.ecdsa.secp256k1 import secp256k1_generator
+        from pycoin.ecdsa.secp256r1 import secp256r1_generator  # noqa: F401
+        from pycoin.ecdsa.native.secp256k1 import libsecp256k1
+        has_ossl = any("openssl" in c.__module__ and c.__name__ == "Optimizations" for c in type(secp256k1_generator).__mro__)
+        hello = "worker openssl=%d libsecp256k1=%d" % (1 if has_ossl else 0, 1 if libsecp256k1 else 0)
+    except Exception as e:  # noqa: BLE001
+        # the generator modules of this configuration cannot even be imported (their constructors run the class's own
+        # raw_mul): a failure of the implementation, not of the infrastructure - every op is answered with the exception
+        import_err = type(e).__name__
+        hello = "worker import-failed %s" % import_err
     for line in sys.stdin:
         line = line.rstrip("\n")
         if not line:
             continue
         tag, _, op = line.partition(" ")
         try:
-            ans = hello if op == "hello" else eval_op(op)
+            ans = hello if op == "hello" else ("err " + import_err if import_err else eval_op(op))
         except BaseException as e:  # noqa: BLE001  (a worker never leaves a request unanswered)
             ans = "err " + type(e).__name__
         out.write("%s %s\n" % (tag, ans.replace("\n", " ")))
